@@ -148,6 +148,19 @@ impl Env {
         self.note(s.as_bytes());
     }
 
+    /// Run an API-level workload as a simulated process (no world, no snapshots).
+    pub fn run_func(&mut self, spec: ProcSpec, call: Call) -> ProcResult {
+        let res = process::run(Path::new("/"), spec, call);
+        self.procs += 1;
+        self.sim_ns += res.sim_ns;
+        for (k, v) in &res.counts {
+            *self.intercepts.entry(k.to_string()).or_insert(0) += *v;
+        }
+        let log = format!("{}|{}|{}", res.status.short(), res.stdout, res.stderr);
+        self.note(log.as_bytes());
+        res
+    }
+
     /// Run one simulated process in `world` with before/after snapshots and
     /// the leak detector.
     pub fn run(&mut self, world: &World, cwd: &Path, spec: ProcSpec, call: Call) -> RunOut {
